@@ -108,6 +108,13 @@ def gen_tracepoints(r, prog):
                  line_trigger(tp_id, prog.base, line, args, watches, metrics))
         trigs.append(b)
         desc.append([tp_id, kind, fn or line, args, watches])
+    for fn in [f for f in funcs if f.startswith('slots_and_dict_')]:
+        # a snapshot right where the program is about to list the attributes of its object (taking the snapshot must
+        # not add to, or otherwise change, the objects it describes)
+        line = prog.func_lines[fn] + 4
+        args = {'fire_count': '-1', 'fire_period': '0', 'frame_type': 'single_frame'}
+        trigs.append(lambda tp_id='tps_' + fn, line=line, args=args: line_trigger(tp_id, prog.base, line, args, ['item'], []))
+        desc.append(['tps_' + fn, 'snapshot', line, args, ['item']])
     for fn in [f for f in funcs if f.startswith('kept_error_')]:
         # asking a kept outcome for its result raises the error the program keeps: an expression that fails with an
         # exception object owned by the program (which reads that object's traceback afterwards)
